@@ -123,6 +123,14 @@ class Tracer:
                 return None
             if e.get('name') == 'is_zero':
                 return zero_calls
+            # a named condition: internal-linkage free function whose body is `return <expr>;`
+            cal = self.prog.callee(e, self.fn)
+            if cal is not None and 'body' in cal and cal.get('linkage') == 'internal' and not cal.get('method') and e.get('this') is None:
+                body = cal['body']
+                stmts = body.get('body', []) if body.get('k') == 'compound' else [body]
+                if len(stmts) == 1 and stmts[0].get('k') == 'return' and stmts[0].get('e') is not None and len(e.get('args', [])) == len(cal.get('params', [])):
+                    from .cfg import subst_params
+                    return self.val(subst_params(stmts[0]['e'], {p['id']: a for p, a in zip(cal['params'], e['args'])}), zero_calls)
         return None
 
     def emit(self, *ev):
@@ -158,6 +166,15 @@ class Tracer:
 
     def expr_stmt(self, e, group):
         e = strip(e)
+        if e.get('k') == 'lcall':
+            cl = strip(e.get('closure'))
+            while isinstance(cl, dict) and cl.get('k') in ('cast', 'load') and isinstance(cl.get('e'), dict):
+                cl = strip(cl['e'])
+            lam = getattr(self, 'lambdas', {}).get(cl.get('id')) if isinstance(cl, dict) else None
+            if lam is None or lam.get('params') or not lam.get('allref') or lam.get('body') is None:
+                raise bm.AnalysisBroken('%s: call of a local function object that cannot be inlined at %s' % (self.fn['qn'], loc_str(e)))
+            self.stmt(lam['body'], group)
+            return
         if e.get('k') == 'call':
             name = e.get('name')
             if name in STEP:
@@ -174,6 +191,18 @@ class Tracer:
                 # any other member call on the accumulator
                 one = any(pr.canon(a).startswith('G:') and pr.canon(a).endswith('::one') for a in e.get('args', []))
                 self.emit('INIT' if (name == 'copy' and one) else 'X', group, name, loc_str(e))
+            return
+        if e.get('k') == 'un' and e.get('op') in ('++', '--'):
+            tgt = strip(e['e'])
+            name = pr.norm_obj(pr.canon(tgt, self.binds))
+            if tgt.get('k') == 'ref' and tgt.get('rk') == 'local' and tgt['id'] in self.env:
+                self.env[tgt['id']] += 1 if e['op'] == '++' else -1
+            elif name.endswith('.coeff_idx'):
+                # the per-pair coefficient cursor advanced in a statement of its own
+                if name not in self.counters:
+                    self.problems.append(('reset', loc_str(e), 'per-pair coefficient cursor %s is used before it is reset for this product' % name))
+                    self.counters[name] = 0
+                self.counters[name] += 1 if e['op'] == '++' else -1
             return
         if e.get('k') == 'assign':
             l = strip(e['lhs'])
@@ -199,6 +228,13 @@ class Tracer:
                 self.stmt(c, group)
         elif k == 'decl':
             for v in s['vars']:
+                ini = v.get('init')
+                while isinstance(ini, dict) and ini.get('k') in ('cast', 'copyctor') and isinstance(ini.get('e'), dict):
+                    ini = ini['e']
+                if isinstance(ini, dict) and ini.get('k') == 'lambda':
+                    # a local function object: nothing runs at its declaration
+                    self.__dict__.setdefault('lambdas', {})[v['id']] = ini
+                    continue
                 if v.get('init') is not None:
                     t = v.get('t') or {}
                     if t.get('k') in ('int', 'bool'):
